@@ -3,7 +3,7 @@ From XV Require Import lib.Bytes lib.Xml gen.C09Sites C09.Model C09.Proofs.
 
 Definition iqn := mkname (str "jabber:client") (str "iq").
 Definition qn := mkname (str "jabber:iq:version") (str "query").
-Definition env0 := mkenv [] true [] true true [].
+Definition env0 := mkenv [] true [] true true [] false.
 
 (* <iq type='result'>text<query/></iq>: the witness of the unmarshalIQ panic on the pinned
    tree; the repaired code skips the text and reaches the decoder *)
@@ -50,20 +50,20 @@ Proof. vm_compute. split; reflexivity. Qed.
 Definition msgn := mkname (str "jabber:client") (str "message").
 Definition resn := mkname (str "urn:xmpp:mam:2") (str "result").
 Definition hist_msg := mkrd [TStart msgn []; TChar (str " "); TStart resn [at_ (str "queryid") (str "q1")]; TEnd resn; TEnd msgn] TmEOF.
-Example ex_history_tracked : history_handle (mkenv [str "q1"] true (str "normal") true true []) hist_msg = [COk; CErr].
+Example ex_history_tracked : history_handle (mkenv [str "q1"] true (str "normal") true true [] false) hist_msg = [COk; CErr].
 Proof. vm_compute. reflexivity. Qed.
-Example ex_history_parked : history_handle (mkenv [str "q1"] false (str "normal") true true []) hist_msg = [CBlocked].
+Example ex_history_parked : history_handle (mkenv [str "q1"] false (str "normal") true true [] false) hist_msg = [CBlocked].
 Proof. vm_compute. reflexivity. Qed.
 
 (* hypotheses of the theorems are satisfiable in non-trivial ways *)
-Example ex_cond_history : comp_cond gen_facts HHistory (mkenv [str "q1"] true (str "normal") true true []) = true.
+Example ex_cond_history : comp_cond gen_facts HHistory (mkenv [str "q1"] true (str "normal") true true [] false) = true.
 Proof. reflexivity. Qed.
 (* <message>text<request xmlns='urn:xmpp:receipts'/></message>: panicked the pinned receipts handler *)
-Example ex_receipts_text_child : receipts_handle receipts_witness = [COk; CErr].
+Example ex_receipts_text_child : receipts_handle gen_facts env0 receipts_witness = [COk; CErr].
 Proof. exact receipts_witness_returns. Qed.
 Example ex_serve_script :
   serve_may gen_facts
-    [[mkinv HHistory (mkenv [str "q1"] true (str "normal") true true []) (TChar []) [hist_msg]];
+    [[mkinv HHistory (mkenv [str "q1"] true (str "normal") true true [] false) (TChar []) [hist_msg]];
      [mkinv HCarbons env0 (TChar []) [mkrd [TStart msgn []; TChar (str "x"); TEnd msgn] TmEOF]]]
   = [Returned; Returned; Returned].
 Proof. vm_compute. reflexivity. Qed.
@@ -74,23 +74,41 @@ Proof. reflexivity. Qed.
 (* ibb: Listen, an acceptor, Listener.Close, then <open/> on a session with a full local address *)
 Example ex_ibb_after_close : ibb_iq gen_facts stale_env open_start = [COk; CErr].
 Proof. vm_compute. reflexivity. Qed.
-Example ex_ibb_key_mismatch : ibb_iq (mkfacts false true) stale_env open_start = [CPanic; COk; CErr].
+Example ex_ibb_key_mismatch : ibb_iq (mkfacts false true true true) stale_env open_start = [CPanic; COk; CErr].
 Proof. vm_compute. reflexivity. Qed.
 (* the same mismatch is harmless on a bare local address *)
 Example ex_ibb_key_mismatch_bare :
-  ibb_iq (mkfacts false true) (mkenv [] true (str "set") true false [ALListen; ALAcceptor; ALClose]) open_start = [COk; CErr].
+  ibb_iq (mkfacts false true true true) (mkenv [] true (str "set") true false [ALListen; ALAcceptor; ALClose] false) open_start = [COk; CErr].
 Proof. vm_compute. reflexivity. Qed.
 (* a listener nobody accepts from *)
-Example ex_ibb_unserved : ibb_iq gen_facts (mkenv [] true (str "set") true true [ALListen]) open_start = [CBlocked; COk; CErr].
+Example ex_ibb_unserved : ibb_iq gen_facts (mkenv [] true (str "set") true true [ALListen] false) open_start = [CBlocked; COk; CErr].
 Proof. vm_compute. reflexivity. Qed.
 (* muc: joined, removed, joined again, removed again *)
 Example ex_muc_second_departure : muc_presence gen_facts depart_env = [COk; CErr].
 Proof. vm_compute. reflexivity. Qed.
-Example ex_muc_plain_send : muc_presence (mkfacts true false) depart_env = [CBlocked; COk; CErr].
+Example ex_muc_plain_send : muc_presence (mkfacts true false true true) depart_env = [CBlocked; COk; CErr].
 Proof. vm_compute. reflexivity. Qed.
 (* a Leave in between drains the slot *)
 Example ex_muc_leave_drains :
-  muc_presence (mkfacts true false) (mkenv [] true (str "unavailable") true true [AMJoin; AMDepart; AMLeave; AMJoin]) = [COk; CErr].
+  muc_presence (mkfacts true false true true) (mkenv [] true (str "unavailable") true true [AMJoin; AMDepart; AMLeave; AMJoin] false) = [COk; CErr].
 Proof. vm_compute. reflexivity. Qed.
-Example ex_served : listener_served gen_facts (mkenv [] true [] true true [ALListen; ALAcceptor]) = true.
+Example ex_served : listener_served gen_facts (mkenv [] true [] true true [ALListen; ALAcceptor] false) = true.
+Proof. vm_compute. reflexivity. Qed.
+
+(* ibb: Expect taken over by a second call for the same session, nobody in Accept, then the <open/> *)
+Example ex_takeover_delivered : ibb_iq gen_facts takeover_env open_start = [COk; CErr].
+Proof. vm_compute. reflexivity. Qed.
+Example ex_takeover_lost : ibb_iq (mkfacts true true false true) takeover_env open_start = [CBlocked; COk; CErr].
+Proof. vm_compute. reflexivity. Qed.
+Example ex_takeover_live : expect_live (e_hist takeover_env) = true /\ e_match takeover_env = true.
+Proof. split; reflexivity. Qed.
+(* the same <open/> for another session is the known stall *)
+Example ex_unexpected_open :
+  ibb_iq gen_facts (mkenv [] true (str "set") true true [ALListen; AEExpect] false) open_start = [CBlocked; COk; CErr].
+Proof. vm_compute. reflexivity. Qed.
+(* receipts: the same receipt three times while the message awaits it *)
+Example ex_receipt_repeated : receipts_handle gen_facts rcpt_env rcpt_msg = [COk; CErr].
+Proof. vm_compute. reflexivity. Qed.
+Example ex_receipt_repeated_no_delete :
+  receipts_handle (mkfacts true true true false) rcpt_env rcpt_msg = [CBlocked; COk; CErr].
 Proof. vm_compute. reflexivity. Qed.
